@@ -15,6 +15,7 @@
 //         s: the *defining* side evaluated by the real expression engine: 1 iff some ancestor-or-self A of N has
 //            N in XPath::execute(P as expression, context A)
 //       or "pat <text> ERR:<what>" when either compilation or evaluation raises.
+//   variant <findAttrFix> <attrGuard> <rootGuard>      echoed (selects the model variant on the Lean side)
 #include <xercesc/util/PlatformUtils.hpp>
 #include <xercesc/framework/MemBufInputSource.hpp>
 
@@ -245,6 +246,12 @@ int main()
                     o << "ERR:other-" << stage;
                 }
                 std::cout << o.str() << "\n";
+            }
+            else if (cmd == "variant")
+            {
+                // which proposed repairs the tree contains was determined by the check from probe patterns;
+                // the line only tells the Lean driver which variant of the model to run
+                std::cout << line << "\n";
             }
             else
             {
